@@ -292,6 +292,30 @@ def stage_sig(ctx):
     ctx.log("replayed %d CHECKSIG/CHECKMULTISIG cases" % len(recs))
 
 
+def stage_lock(ctx):
+    r = ctx.tlc("MC_LockEnum", "MC_LockEnum", timeout=1200)
+    recs = r.by_kind("lock")
+    cases = [S.mk_case("eval", pk=bytes([t["op"]]), stack=[bytes(x) for x in t["stack"]], flags=t["flags"],
+                       version=t["version"], locktime=int.from_bytes(bytes(t["locktime"]), "little"),
+                       sequence=int.from_bytes(bytes(t["sequence"]), "little"), sigmode="fixed") for t in recs]
+    got = [g for ch in pmap(_run_eval_chunk, split(cases, 64)) for g in ch]
+    for t, case, g in zip(recs, cases, got):
+        exp = ("fail",) if t["status"] == "fail" else ("ok", [bytes(x) for x in t["out"]])
+        gg = g if g[0] == "ok" else ("fail",)
+        ctx.evaluations += 1
+        ctx._distinct.add(("lock", t["op"], t["status"], t["err"], tuple(t["flags"])))
+        if gg != exp:
+            operand = bytes(t["stack"][0]).hex() if t["stack"] else "none"
+            ctx.fail("C03|lock|%s|exp=%s:%s|got=%s|flags=%s" % (_opname(t["op"]), exp[0], t["err"], gg[0], ",".join(sorted(t["flags"]))),
+                     "%s operand %s version %s locktime %s sequence %s flags %s: consensus %s %s, pycoin %s" % (
+                         _opname(t["op"]), operand, t["version"], bytes(t["locktime"]).hex(), bytes(t["sequence"]).hex(), t["flags"],
+                         t["status"], t["err"], g), {"case": case, "spec": t, "pycoin": g})
+    ctx.replayed += len(recs)
+    ctx.action("lock.cases", len(recs))
+    ctx.sample({"lock_case": recs[len(recs) // 2]})
+    ctx.log("replayed %d CLTV/CSV cases" % len(recs))
+
+
 def _concretize_chunk(chunk):
     return [S.concretize(s) for s in chunk]
 
@@ -692,7 +716,7 @@ def _validate_script_traces(ctx, data):
     return rejected
 
 
-STAGES = [("core", stage_core), ("coretx", stage_coretx), ("enum", stage_enum), ("sig", stage_sig), ("spend", stage_spend), ("limits", stage_limits),
+STAGES = [("core", stage_core), ("coretx", stage_coretx), ("enum", stage_enum), ("sig", stage_sig), ("lock", stage_lock), ("spend", stage_spend), ("limits", stage_limits),
           ("cond", stage_cond), ("trace", stage_trace)]
 
 
